@@ -29,8 +29,8 @@ for name, mod in sorted(prog.modules.items()):
             continue
         if ast.dump(cur[q]) == ast.dump(ref[q]):
             continue
-        a = ast.unparse(equiv.normal_form(ref[q], sigs)).splitlines()
-        b = ast.unparse(equiv.normal_form(cur[q], sigs)).splitlines()
+        a = ast.unparse(equiv.normal_form(ref[q], sigs, q.split('.')[-2] if '.' in q else None)).splitlines()
+        b = ast.unparse(equiv.normal_form(cur[q], sigs, q.split('.')[-2] if '.' in q else None)).splitlines()
         if a == b:
             print('  equal-nf', q)
             continue
